@@ -151,3 +151,11 @@ CASES += [
       "        rhot = DensityMatrixEvolution(timeaxis=self.TimeAxis,\n                                      is_in_rwa=self.is_in_rwa)",
       "        rhot = DensityMatrixEvolution(timeaxis=self.TimeAxis)\n        rhot.is_in_rwa = self.is_in_rwa"),
 ]
+
+CASES += [
+    {"name": "at() of the density-matrix evolution takes the lower neighbour (the repaired defect)", "kind": "mutant", "rule": "C02-K", "edits": [
+        ("quantarhei/qm/propagators/dmevolution.py", "        ti = self.TimeAxis.nearest(time)\n\n        # the state handed out owns its data: it changes basis on its own and\n        # writing into it does not change the evolution\n        return DensityMatrix(",
+         "        ti, dt = self.TimeAxis.locate(time)\n\n        return DensityMatrix(", 1)]},
+    {"name": "at() indexes with a shifted grid point", "kind": "mutant", "rule": "C02-K", "edits": [
+        ("quantarhei/qm/propagators/dmevolution.py", "        return ReducedDensityMatrix(data=self.data[ti, :, :].copy())", "        return ReducedDensityMatrix(data=self.data[ti-1, :, :].copy())", 1)]},
+]
